@@ -867,7 +867,11 @@ def check_C12(tier, seed):
     for release, runs in ((False, 1500 if tier == QUICK else 30000), (True, 500 if tier == QUICK else 10000)):
         prefix = "c12_%s" % ("rel" if release else "dbg")
         _clean_traces(prefix)
-        paths, stats = rn.gen(prefix, runs, seed + (1 if release else 0), 12, release=release)
+        dead = []
+        paths, stats = rn.gen(prefix, runs, seed + (1 if release else 0), 12, release=release, dead=dead)
+        for (g, rc, how) in dead[:5]:
+            rep.violation({"kind": "process-died", "exit": rc, "object": "renumber", "event": "abort", "op": "", "spec": "", "panic": False,
+                           "parser": ""}, {"spec": None, "how_to_replay": how, "exit_status": rc, "graph_id": g})
         r = validate_traces(prefix, "Trace_Renumber", "Trace_Renumber.cfg", paths)
         for rej in r["rejected"]:
             reset = json.loads(rej["records"][0])
